@@ -74,13 +74,14 @@ def body(rng, b: B, ind: str, is_test: bool, is_async: bool, n: list):
             pre = rng.choice(["std::thread::", "thread::"])
             b.add("%s%ssleep(dur_%d);" % (ind, pre, k), "sleep", **c)
         elif r < 0.82:
-            pre = rng.choice(["std::net::", "net::"])
+            pre = rng.choice(["std::net::", "net::", ""])  # "" = the type brought in with `use std::net::TcpStream;`
             call = rng.choice(["TcpStream::connect", "TcpListener::bind", "UdpSocket::bind"])
             b.add("%slet n%d = %s%s(\"host_%d:80\");" % (ind, k, pre, call, k), "net", **c)
         elif r < 0.88:
             b.add(rng.choice([
                 "%slet t%d = tokio::fs::read_to_string(\"p_%d\").await;", "%slet t%d = tokio::net::TcpStream::connect(\"h_%d:1\").await;",
-                "%slet t%d = async_std::fs::read(\"p_%d\").await;"]) % (ind, k, k) if is_async else "%slet t%d = helper_%d();" % (ind, k, k))
+                "%slet t%d = async_std::fs::read(\"p_%d\").await;", "%slet t%d = fs::read_to_string(\"p_%d\").await;",
+                "%slet t%d = TcpStream::connect(\"h_%d:1\").await;"]) % (ind, k, k) if is_async else "%slet t%d = helper_%d();" % (ind, k, k))
         elif r < 0.94:
             wrapper = rng.choice(["tokio::task::spawn_blocking", "spawn_blocking", "tokio::task::block_in_place", "block_in_place"])
             b.add("%slet w%d = %s(|| {" % (ind, k, wrapper))
